@@ -372,6 +372,33 @@ func init() {
 				}
 			}
 		}
+		// NaN (held by a variable, and computed: Inf - Inf): every ordered comparison with it is false,
+		// == is false and != is true, whichever side it stands on (IEEE 754 / Go)
+		{
+			hg, one := &xnode{leaf: "vhuge", val: 1e200}, &xnode{leaf: "1.5", val: 1.5}
+			inf := &xnode{op: "*", l: hg, r: hg}
+			nans := []*xnode{{leaf: "vnan", val: math.NaN()}, {op: "-", l: inf, r: inf}}
+			others := []*xnode{one, {leaf: "0.0", val: 0.0}, hg, inf, {leaf: "2", val: 2}, {leaf: "vnan", val: math.NaN()}}
+			for _, nn := range nans {
+				for _, ot := range others {
+					for _, op := range []string{"<", "<=", ">", ">=", "==", "!="} {
+						for _, n := range []*xnode{{op: op, l: nn, r: ot}, {op: op, l: ot, r: nn}, {op: "!", l: &xnode{op: op, l: nn, r: ot}}, {op: "&&", l: &xnode{op: op, l: ot, r: nn}, r: &xnode{leaf: "true", val: true}}} {
+							v, class := refRun(n)
+							if class != "OK" {
+								continue
+							}
+							src := n.print(0, e.Rng)
+							o := runRenderExtra(RCase{Tmpl: "<%= " + src + " %>", Binds: binds}, map[string]interface{}{"vnan": math.NaN()})
+							e.rep.Evaluations++
+							e.Count("render-nan")
+							if o.Class != "OK" || o.Out != fmt.Sprint(v) {
+								e.Violate("c06-ref", fmt.Sprintf("%s: rendered %q (%s %s), reference value %q", src, o.Out, o.Class, firstLine(o.Msg), fmt.Sprint(v)), map[string]interface{}{"expr": src, "observed": o, "reference": fmt.Sprint(v)})
+							}
+						}
+					}
+				}
+			}
+		}
 		for _, a := range leaves {
 			judge("d1", &xnode{op: "!", l: a})
 			for _, b := range leaves {
